@@ -63,7 +63,9 @@ def cases(tier):
                     seen.add((a, b))
                     yield a, b
     # characters that are longer than one byte / one UTF-16 unit (a size measured in bytes must not leak into costs)
-    for alphabet, maxlen in (('\u00e9\u00fc', 4 if q else 5), ('a\u65e5\U0001F600', 3 if q else 4)):
+    # ... a combining character of the data itself (not one of the two change marks), and a line break
+    for alphabet, maxlen in (('\u00e9\u00fc', 4 if q else 5), ('a\u65e5\U0001F600', 3 if q else 4), ('e\u0301', 4 if q else 5),
+                             ('a\n', 4 if q else 5), ('a \n', 3 if q else 4)):
         ss = list(strings(alphabet, maxlen))
         for a in ss:
             for b in ss:
